@@ -45,7 +45,7 @@ Top == top
 
 NumStarts == {n \in (0..3) \cup (126..131) \cup ((Top - 131)..(Top + 2)) : n >= 0 /\ (Trunk > 0 \/ n <= Top + 2)}
 MaxSeq == <<-1, -1, 0, 1, 1, 2, 2, 3, 3, 4, 5, 127, 128, 129, 1000>>
-FieldSeq == <<0, 1, 1, 2, 3, 3, 16, 17, 18, 19, 19, 31, 4, 8, 255, 32>>
+FieldSeq == <<0, 1, 1, 2, 3, 3, 16, 17, 18, 19, 19, 31, 4, 8, 255, 32, 12, 20, 24, 28, 31>>
 
 PickReq ==
   LET byn == RandomElement(1..(2 + Z)) = 1
@@ -72,7 +72,7 @@ Expect ==
       E(r) == [i \in 1..Len(bests) |->
                  LET nv == [par |-> par, K |-> K, best |-> bests[i], J |-> J]
                  IN [best |-> bests[i], acc |-> SetToSeq(Acc(nv, r)), refuse |-> MayRefuse(nv, r)]]
-      F(r) == [h |-> Bit(r.fields, 1), b |-> Bit(r.fields, 2), j |-> Bit(r.fields, 16)]
+      F(r) == [h |-> Bit(r.fields, 1), b |-> Bit(r.fields, 2), rc |-> Bit(r.fields, 4), mq |-> Bit(r.fields, 8), j |-> Bit(r.fields, 16)]
   IN [family |-> "BlockRequests", par |-> par, fin |-> fin, J |-> SetToSeq(J), K |-> SetToSeq(K),
       steps |-> [i \in 1..Len(reqs) |-> [o |-> reqs[i], fl |-> F(reqs[i]), exp |-> E(reqs[i])]]]
 
